@@ -30,7 +30,7 @@
     OUTSIDE that domain the Go code re-resolves pageEntry after the temporary mapping and after each store while the
     model resolves it once.
     Statements only; proofs are in Vmm/FaultTrans.v and Vmm/StableInvFault.v. *)
-From Coq Require Import NArith String List.
+From Coq Require Import NArith String List Bool.
 From FF Require Import Lib.Word Lib.GoOps Gen.Consts_mm_vmm Gen.Trans_vmm_fault Vmm.Pt Vmm.PtAccess.
 From FF Require Vmm.FaultTrans Vmm.MapTrans Vmm.PdtTrans Vmm.StableInvFault.
 From FF Require Import Vmm.PtMap Vmm.PtFault.
